@@ -407,6 +407,25 @@ func c03Exec(r *vf.Run, cfg c03Cfg, c *vf.Chooser) (keys, whats []string) {
 			}
 		}
 	}
+	for _, k := range xportCls {
+		r.Outcome(fmt.Sprintf("reached/transport-failure-class-%d", k))
+	}
+	for n := range f.fired {
+		if strings.HasSuffix(n, ".sign") {
+			r.Outcome("reached/signing-failure")
+		} else {
+			r.Outcome("reached/producer-failure")
+		}
+	}
+	if len(sess.Commits) > 0 {
+		r.Outcome("reached/commit")
+	}
+	if cfg.Resend && len(sess2.Commits) == cfg.M {
+		r.Outcome("reached/resend-committed-all")
+	}
+	if cfg.Resend && len(xportCls) > 0 && len(sess2.Commits) == cfg.M {
+		r.Outcome("reached/resend-after-transport-failure")
+	}
 	if cfg.Resend {
 		signBad := func(i int) bool { return f.picked[fmt.Sprintf("m%d.sign", i)] == 1 }
 		got := make([]int, cfg.M)
@@ -545,6 +564,8 @@ func init() {
 					}
 				})
 			}
+			r.Reached("reached/transport-failure-class-1", "reached/transport-failure-class-2", "reached/transport-failure-class-3", "reached/transport-failure-class-4", "reached/transport-failure-class-5", "reached/transport-failure-class-6",
+				"reached/signing-failure", "reached/producer-failure", "reached/commit", "reached/resend-committed-all", "reached/resend-after-transport-failure")
 		},
 		Replay: func(r *vf.Run, kase json.RawMessage) {
 			var k c03Case
